@@ -317,8 +317,9 @@ fn encode_bigint(buf: &mut BytesMut, big: &BigInt) -> Result<(), EncodeError> {
         buf.put_u8(SMALL_BIG_EXT);
         buf.put_u8(len as u8);
     } else {
+        let len = u32::try_from(len).map_err(|_| EncodeError::BinaryTooLarge { size: len })?;
         buf.put_u8(LARGE_BIG_EXT);
-        buf.put_u32(len as u32);
+        buf.put_u32(len);
     }
     buf.put_u8(if big.sign.is_negative() { 1 } else { 0 });
     buf.put_slice(&big.digits);
@@ -352,7 +353,11 @@ fn encode_new_fun_ext_impl(
     temp_buf.put_u8(fun.arity);
     temp_buf.put_slice(&fun.uniq);
     temp_buf.put_u32(fun.index);
-    temp_buf.put_u32(fun.num_free);
+    // NumFree counts the free variables that follow: take it from the vector that is written
+    let num_free = u32::try_from(fun.free_vars.len()).map_err(|_| EncodeError::ListTooLarge {
+        size: fun.free_vars.len(),
+    })?;
+    temp_buf.put_u32(num_free);
 
     encode_atom_impl(&mut temp_buf, &fun.module, cache)?;
     encode_integer(&mut temp_buf, fun.old_index as i64)?;
@@ -363,8 +368,9 @@ fn encode_new_fun_ext_impl(
         encode_term_impl(&mut temp_buf, var, cache)?;
     }
 
+    let size = u32::try_from(temp_buf.len() + 4).map_err(|_| EncodeError::BufferOverflow)?;
     buf.put_u8(NEW_FUN_EXT);
-    buf.put_u32((temp_buf.len() + 4) as u32);
+    buf.put_u32(size);
     buf.put_slice(&temp_buf);
 
     Ok(())
@@ -491,6 +497,9 @@ pub fn encode_with_dist_header_multi(terms: &[&OwnedTerm]) -> Result<Vec<u8>, En
 
         let atom_bytes = atom.name.as_bytes();
         let atom_len = atom_bytes.len();
+        if atom_len > u16::MAX as usize {
+            return Err(EncodeError::AtomTooLarge { size: atom_len });
+        }
 
         if long_atoms {
             buf.put_u16(atom_len as u16);
